@@ -95,6 +95,18 @@ Definition aval_of_outcome (o : outcome) : aval :=
 Definition rec_tbl (f : showfn) := match f with FJS => gen_checkShowJS_tbl | FJSON => gen_checkShowJSON_tbl end.
 Definition field_tree (f : showfn) := match f with FJS => gen_checkShowJS_field | FJSON => gen_checkShowJSON_field end.
 
+(* the loop over the struct fields: the first field whose body does not `continue` decides; None: the loop completes *)
+Definition fields_exit (chk : finfo -> ty -> outcome) : list (finfo * ty) -> option outcome :=
+  fix go (fs : list (finfo * ty)) : option outcome :=
+    match fs with
+    | [] => None
+    | (fi, ft) :: r =>
+      match chk fi ft with
+      | OContinue => go r
+      | o => Some o
+      end
+    end.
+
 Section StaticRec.
   Variable f : showfn.
 
@@ -142,17 +154,7 @@ Section StaticRec.
     | TArr _ e | TSlice _ e | TPtr _ e | TMap _ _ e =>
       eval_tree (static_val env t (Some (static_rec (t :: env) e)) VStuck) (node_tree env t)
     | TStruct _ fs =>
-      (* the loop over the fields: the first field whose body does not `continue` decides *)
-      let exit :=
-        (fix go (fs : list (finfo * ty)) : option outcome :=
-           match fs with
-           | [] => None
-           | (fi, ft) :: r =>
-             match eval_tree (field_val fi (static_rec (t :: env) ft)) (field_tree f) with
-             | OContinue => go r
-             | o => Some o
-             end
-           end) fs in
+      let exit := fields_exit (fun fi ft => eval_tree (field_val fi (static_rec (t :: env) ft)) (field_tree f)) fs in
       match eval_tree (static_val env t None (match exit with None => VT | Some _ => VF end)) (node_tree env t) with
       | OLoopExit => match exit with Some o => o | None => OStuck end
       | o => o
@@ -202,4 +204,14 @@ Fixpoint closedb (depth : nat) (t : ty) : bool :=
   | TMap _ k e => closedb (S depth) k && closedb (S depth) e
   | TStruct _ fs => (fix go (fs : list (finfo * ty)) : bool :=
                        match fs with [] => true | (_, ft) :: r => closedb (S depth) ft && go r end) fs
+  end.
+
+(* every leaf carries a reflect.Kind *)
+Fixpoint wf_tyb (t : ty) : bool :=
+  match t with
+  | TLeaf k _ => k <? n_kinds
+  | TArr _ e | TSlice _ e | TPtr _ e => wf_tyb e
+  | TMap _ k e => wf_tyb k && wf_tyb e
+  | TStruct _ fs => forallb (fun p : finfo * ty => wf_tyb (snd p)) fs
+  | TRec _ => true
   end.
